@@ -370,7 +370,7 @@ package primitive
 //@   invariant #0 sum: written(dest) == w0 + 2 + fold(LengthOfString, list, rangeindex + 1)
 //@   invariant #0 count: written(dest) >= w0 + 2 && (len(list) <= 65535 ==> wbe2(dest, w0) == uint16(len(list)))
 //@   ensures len: result == nil ==> written(dest) == w0 + 2 + fold(LengthOfString, list, len(list))
-//@   ensures count: result == nil && len(list) <= 65535 ==> wbe2(dest, w0) == uint16(len(list))
+//@   ensures count: result == nil ==> written(dest) >= w0 + 2 && (len(list) <= 65535 ==> wbe2(dest, w0) == uint16(len(list)))
 //@ func LengthOfStringList
 //@   prop C03
 //@   assigns nothing
@@ -397,7 +397,7 @@ package primitive
 //@   let w0 = written(dest)
 //@   assumes len: result == nil ==> written(dest) == old(written(dest)) + abstractLen("bytesmap", m)
 //@   invariant #0 count: written(dest) >= w0 + 2 && (len(m) <= 65535 ==> wbe2(dest, w0) == uint16(len(m)))
-//@   ensures count: result == nil && len(m) <= 65535 ==> wbe2(dest, w0) == uint16(len(m))
+//@   ensures count: result == nil ==> written(dest) >= w0 + 2 && (len(m) <= 65535 ==> wbe2(dest, w0) == uint16(len(m)))
 //@ func LengthOfBytesMap
 //@   prop C03
 //@   assigns nothing
